@@ -169,7 +169,29 @@ def free_vars_env(obs, rng, lo=0.5, hi=1.5, fixed=None):
     return env
 
 
+def fixed_variants(fixed):
+    """`fixed` pins variables for the witness search; a tuple/list value gives alternatives (e.g. alpha: (4.0, -4.0)) that
+    are tried one at a time on top of the first ones - a difference that only shows for a negative angle must not be lost
+    because the search was pinned to a positive one."""
+    fixed = fixed or {}
+    base = {k: (v[0] if isinstance(v, (tuple, list)) else v) for k, v in fixed.items()}
+    out = [base]
+    for k, v in fixed.items():
+        if isinstance(v, (tuple, list)):
+            for alt in v[1:]:
+                out.append(dict(base, **{k: alt}))
+    return out
+
+
 def witness(ob, rng, tries=40, box=(0.5, 1.5), fixed=None, nominal=None):
+    for fx in fixed_variants(fixed):
+        env = _witness(ob, rng, tries=tries, box=box, fixed=fx, nominal=nominal)
+        if env is not None:
+            return env
+    return None
+
+
+def _witness(ob, rng, tries=40, box=(0.5, 1.5), fixed=None, nominal=None):
     """Find a concrete point where the obligation's two sides differ numerically and the assumptions hold:
     first the solver's own model, then pseudo-random points (the solver's sat verdict established existence;
     this only selects a well-conditioned witness for replay)."""
@@ -217,6 +239,7 @@ def run_obligations(rep, group, obs, timeout, replay=None, family=None, lw=None,
     used as hypotheses (the lemmas are solver obligations of the same run)."""
     t0 = time.time()
     info = dict(info or {})
+    fixed_all, fixed = fixed, fixed_variants(fixed)[0]
     if relate is not None:
         lem = oblig.relate_sqrt_atoms(obs, rhos=relate, assume=relate_assume, timeout=timeout, hint_env=fixed)
         info["sqrt_relation_lemmas_proved"] = len(lem)
@@ -241,7 +264,7 @@ def run_obligations(rep, group, obs, timeout, replay=None, family=None, lw=None,
         if tried.get(fam, 0) >= max_replays:
             continue
         tried[fam] = tried.get(fam, 0) + 1
-        env = witness(o, rng, box=box, fixed=fixed, nominal=nominal)
+        env = witness(o, rng, box=box, fixed=fixed_all, nominal=nominal)
         if env is None:
             rep.not_reproduced.append({"id": o.id, "why": "no numeric witness found for the solver's sat answer"})
             continue
